@@ -76,6 +76,24 @@ pub fn run(ctx: &mut Ctx) {
             }
         };
     }
+    // bit-length grid: for every pair of operand bit lengths, values around each power of two
+    // (2^i - 1, 2^i, 2^i + 1, and a random value of that length), reduced modulo P: products,
+    // sums and differences against wide reference arithmetic (intermediate overflow depends on
+    // the bit lengths of the operands, not on how close they are to P)
+    macro_rules! grid {
+        ($name:expr, $p:expr) => {
+            for case in ctx.cases(concat!($name, "_bitgrid"), 8, false) {
+                ctx.run_case(concat!($name, "_bitgrid"), case, |ctx, rng| bitgrid_case::<{ $p }>(ctx, rng, case as usize, $name));
+            }
+        };
+    }
+    grid!("ff_u32_tiny", primes::U32_TINY);
+    grid!("ff_u32_small", primes::U32_SMALL);
+    grid!("ff_u64_largest", primes::U64_LARGEST);
+    grid!("ff_u128_large_1", primes::U128_LARGE_1);
+    grid!("ff_u128_large_2", primes::U128_LARGE_2);
+    grid!("ff_u128_large_3", primes::U128_LARGE_3);
+    grid!("ff_u128_large_4", primes::U128_LARGE_4);
     field!("ff_u32_tiny", primes::U32_TINY);
     field!("ff_u32_small", primes::U32_SMALL);
     field!("ff_u64_largest", primes::U64_LARGEST);
@@ -249,6 +267,39 @@ fn eu_lattice(ctx: &mut Ctx, dom: &[OEu], first: usize) {
             }
         }
     }
+}
+
+fn bitgrid_case<const P: u128>(ctx: &mut Ctx, rng: &mut Rng, slice: usize, name: &str) {
+    let bits = 128 - P.leading_zeros() as usize;
+    let mut vals: Vec<u128> = Vec::new();
+    for i in 0..=bits {
+        let p2 = if i >= 128 { 0 } else { 1u128 << i };
+        for v in [p2.wrapping_sub(1), p2, p2.wrapping_add(1), p2 | ((((rng.next() as u128) << 64) | rng.next() as u128) & p2.wrapping_sub(1))] {
+            vals.push(v % P);
+        }
+    }
+    vals.push(P - 1);
+    vals.push(P / 2);
+    vals.sort();
+    vals.dedup();
+    for (i, a) in vals.iter().enumerate() {
+        if i % 8 != slice {
+            continue;
+        }
+        let ra = FiniteField::<P>::new(*a);
+        for b in &vals {
+            let rb = FiniteField::<P>::new(*b);
+            ctx.count("bitgrid_pairs", 1);
+            let (m, s, d) = ((ra * rb).value(), (ra + rb).value(), (ra - rb).value());
+            if m != mulmod(*a, *b, P) || s != addmod(*a, *b, P) || d != submod(*a, *b, P) {
+                ctx.violation(&format!("law.{}.bitgrid", name), "finite-field result is not integer arithmetic modulo P (bit-length grid)",
+                    json!({"a": a.to_string(), "b": b.to_string(), "mul": m.to_string(), "add": s.to_string(), "sub": d.to_string(),
+                        "expected_mul": mulmod(*a, *b, P).to_string(), "expected_add": addmod(*a, *b, P).to_string(), "expected_sub": submod(*a, *b, P).to_string()}));
+                return;
+            }
+        }
+    }
+    ctx.case_eval(Some(crate::rng::mix(crate::rng::hash_str(name) ^ slice as u64)));
 }
 
 fn field_case<const P: u128>(ctx: &mut Ctx, rng: &mut Rng, first: usize, name: &str) {
